@@ -1357,6 +1357,9 @@ func (o *ovsdbClient) handleDisconnectNotification() {
 	o.rpcMutex.Lock()
 	if o.options.reconnect && !o.shutdown {
 		o.rpcClient = nil
+		// the endpoint list is only to be read with the lock held: a Connect
+		// call may reorder it as soon as the lock is released
+		lostEndpoint := o.endpoints[0].address
 		o.rpcMutex.Unlock()
 		verifPoint(o, "disconnect:unlocked")
 		suppressionCounter := 1
@@ -1382,7 +1385,7 @@ func (o *ovsdbClient) handleDisconnectNotification() {
 			suppressionCounter++
 			return err
 		}
-		o.logger.V(3).Info("connection lost, reconnecting", "endpoint", o.endpoints[0].address)
+		o.logger.V(3).Info("connection lost, reconnecting", "endpoint", lostEndpoint)
 		err := backoff.Retry(connect, o.options.backoff)
 		if err != nil {
 			// TODO: We should look at passing this back to the
